@@ -556,7 +556,73 @@ def key_driver(case, api):
     return {"id": case["id"], "obs": obs}
 
 
+# ---- Part E: re-entry.  cell = {id, form: "re", kind: <how the function refers to itself>, via: <outer form>, ret: <inner form>}
+# Level 0 (entered by the outer form) calls the self-reference SELF with the inner form, level 1 makes the plain call
+# SELF(7, 8), level 2 is a leaf; every level records what it saw in TR[level].
+RE_BODY = ("var lv = DEPTH; DEPTH = DEPTH + 1; TR[lv] = [this, arguments.length, arguments[0], arguments[1], a, b];"
+           " if (lv === 0) { SAME = (%(s)s === F0); SLEN = %(s)s.length; %(inner)s; } else if (lv === 1) { %(s)s(7, 8); }")
+RE_KIND = {   # kind -> (source with %(body)s, the expression SELF)
+    "named": ("var F0 = function me(a, b, c){ %(body)s };", "me"),
+    "namedshadow": ("var me = 'outer'; var F0 = function me(a, b, c){ %(body)s };", "me"),
+    "namedclosure": ("var F0 = function me(a, b, c){ var self = (function(){ return me; })(); %(body)s };", "self"),
+    "decl": ("function fd(a, b, c){ %(body)s } var F0 = fd;", "fd"),
+    "expr": ("var F0 = function(a, b, c){ %(body)s };", "F0"),
+    "declinner": ("var F0 = (function(){ function inner(a, b, c){ %(body)s } return inner; })();", "inner"),
+}
+RE_INNER = {"plain": "%(s)s(3, 4)", "call": "%(s)s.call(x2, 3, 4)", "apply": "%(s)s.apply(x2, [3, 4])",
+            "bind": "%(s)s.bind(x2, 3)(4)", "method": "o2.m = %(s)s; o2.m(3, 4)", "new": "new %(s)s(3, 4)"}
+RE_OUTER = {"plain": "F0(1, 2)", "method": "recv.f = F0; recv.f(1, 2)", "call": "F0.call(x1, 1, 2)", "apply": "F0.apply(x1, [1, 2])",
+            "bind": "F0.bind(x1)(1, 2)", "bindargs": "F0.bind(x1, 5, 6)(1, 2)", "bindcall": "F0.bind(x1).call(x2, 1, 2)",
+            "bindmethod": "recv.g = F0.bind(x1); recv.g(1, 2)", "new": "new F0(1, 2)",
+            "newbound": "var B = F0.bind(x1, 5); new B(2)", "map": "[4].map(F0)", "mapthis": "[4].map(F0, x1)",
+            "mapbound": "[4].map(F0.bind(x1))"}
+
+
+def re_driver(case, api):
+    from microjs import values as V
+    kind, outer, inner = case["kind"], case["via"], case["ret"]
+    ctx = api.new_context(time_limit=5.0)
+    enc = Enc(V)
+    got = []
+    ctx.set("__reg", lambda *a: (enc.register(["recv", "x1", "x2", "o2", "F0"], a), None)[1])
+    ctx.set("__emit", lambda *a: (got.append(a), None)[1])
+    tmpl, selfx = RE_KIND[kind]
+    body = RE_BODY % {"s": selfx, "inner": RE_INNER[inner] % {"s": selfx}}
+    src = (CLS + "var x1 = {tag: 'x1'}; var x2 = {tag: 'x2'}; var o2 = {tag: 'o2'}; var recv = {};"
+           " var DEPTH = 0; var TR = []; var SAME; var SLEN;\n" + tmpl % {"body": body} + """
+    __reg(recv, x1, x2, o2, F0);
+    var out = 'ok';
+    try { %s; } catch (e) { out = '!' + __cls(e); }
+    var L = [];
+    for (var i = 0; i < 3; i++) {
+        var T = TR[i] === undefined ? undefined : TR[i][0];
+        var lk = false;
+        try { lk = (typeof T === 'object' && T !== null) ? Object.getPrototypeOf(T) === F0.prototype : false; } catch (e) { lk = '!' + __cls(e); }
+        L.push(lk);
+    }
+    __emit(out, DEPTH, SAME, SLEN, TR, L);
+    """ % RE_OUTER[outer])
+    o = api.eval_outcome(ctx, src + "'done'", wall=20.0, cap=2_000_000)
+    if o["o"] == "host":
+        return {"id": case["id"], "obs": {"out": "host:%s" % o.get("type")}}
+    if outcome_str(o) != "done" or len(got) != 1:
+        return {"id": case["id"], "obs": {"out": "fail:" + outcome_str(o)}}
+    out, depth, same, slen, tr, lk = got[0]
+    e = enc.enc
+    obs = {"out": str(out), "depth": e(depth), "same": e(same), "slen": e(slen)}
+    for j in range(3):
+        row = tr._elements[j] if j < len(tr._elements) else V.UNDEFINED
+        vals = list(row._elements) if isinstance(row, V.JSArray) else [V.UNDEFINED] * 6
+        vals += [V.UNDEFINED] * (6 - len(vals))
+        for a, v in zip("tnxypq", vals):
+            obs["%s%d" % (a, j)] = e(v)
+        obs["l%d" % j] = e(lk._elements[j])
+    return {"id": case["id"], "obs": obs}
+
+
 def cell_driver(case, api):
     if case["form"] == "key":
         return key_driver(case, api)
+    if case["form"] == "re":
+        return re_driver(case, api)
     return tv_driver(case, api) if case["form"] == "tv" else call_driver(case, api)
